@@ -73,7 +73,7 @@ fn parked(actor: &str) -> Option<String> {
 }
 
 fn batch_done_count(id: &str) -> usize {
-    EMITS.lock().unwrap().iter().filter(|(n, d)| n == "matcher.batch_done" && d == id).count()
+    vh::vnode::emit_count("matcher.batch_done", id)
 }
 
 #[derive(Clone, Debug, serde::Serialize, serde::Deserialize)]
@@ -816,7 +816,10 @@ fn main() {
     };
     // the client library's side of the property first (cheap, exhaustive, no time cap)
     let client_cases = client_part(&rep, cli.tier);
-    let deadline = Instant::now() + Duration::from_secs(cli.tier.pick(45, 1700));
+    // quick: every schedule with at most 2 departures from the default order, for both cases
+    // (deterministic work); the wall-clock cap is a safety net
+    let max_level: usize = cli.tier.pick(2, 64) as usize;
+    let deadline = Instant::now() + Duration::from_secs(cli.tier.pick(300, 1700));
     let mut total = 0u64;
     let mut steps = 0u64;
     let mut capped = None;
@@ -827,7 +830,7 @@ fn main() {
     let mut bound_completed: Vec<i64> = vec![-1; cases.len()];
     let mut level = 0;
     'levels: loop {
-        if buckets.iter().all(|b| b.len() <= level) {
+        if buckets.iter().all(|b| b.len() <= level) || level > max_level {
             break;
         }
         for (ci, case) in cases.iter().enumerate() {
